@@ -117,9 +117,30 @@ def _seed_entries(prop):
     return out
 
 
+def _twin_entries(prop, consulted):
+    """benign refactors (twins/<name>/patch.diff) touching a module this property's rules consult: must stay silent"""
+    import glob
+    import json
+    from .core import VERIF
+    out = []
+    for meta in sorted(glob.glob(os.path.join(VERIF, "twins", "*", "meta.json"))):
+        d = os.path.dirname(meta)
+        try:
+            m = json.load(open(meta))
+        except Exception:
+            continue
+        files = set()
+        for line in open(os.path.join(d, "patch.diff")):
+            if line.startswith("+++ b/"):
+                files.add(line[6:].strip()[:-3].replace("/", "."))
+        if files & consulted:
+            out.append({"kind": "twin", "name": "twin:" + os.path.basename(d), "props": [prop], "patch": os.path.join(d, "patch.diff"), "edits": [], "rules": {}})
+    return out
+
+
 def run_for(prop, chk):
     from .catalogue import CATALOGUE
-    entries = [e for e in CATALOGUE if prop in e["props"]] + _seed_entries(prop)
+    entries = [e for e in CATALOGUE if prop in e["props"]] + _seed_entries(prop) + _twin_entries(prop, set(chk.repo.consulted))
     if not entries:
         chk.extra["selftest"] = {"entries": 0}
         return
